@@ -16,8 +16,8 @@
 
    Abstraction: a path's attributes are (rank class a_pref, LLGR_STALE / NO_LLGR
    community bits, route targets); the comparator RibEntry::cmp is its projection
-   on (llgr-stale, a_pref, iBGP, stale, router id) -- the harness realises a_pref
-   by LOCAL_PREF / AS_PATH length / ORIGIN, CLUSTER_LIST is always absent.
+   on (llgr-stale, a_pref, iBGP, stale, CLUSTER_LIST length, originator / router id)
+   -- the harness realises a_pref by LOCAL_PREF / AS_PATH length / ORIGIN.
    Arc identity (attribute block, Source) is a token.  Hash-map iteration order
    is not modelled: per-destination work is independent and the request stream
    is compared per key.  [variant] selects the behaviour of distribute_update
@@ -27,7 +27,13 @@ From RB Require Import Base.Val.
 Import ListNotations.
 Open Scope N_scope.
 
-Definition prefix := (N * N)%type.      (* (kind, id): 0 IPv4 unicast, 1 VPNv4, 2 VRF-local form of VPNv4 id *)
+(* (kind, id): 0 IPv4 unicast, 1 VPNv4 (id = 10 * RD + inner prefix), 2 the
+   VRF-local form of a VPNv4 prefix (id = inner prefix: the RD is stripped),
+   3 IPv6 unicast, 4 VPNv6, 5 the VRF-local form of a VPNv6 prefix *)
+Definition prefix := (N * N)%type.
+Definition is_vpn (p : prefix) : bool := (fst p =? 1) || (fst p =? 4).
+(* table::vpn_to_local_nlri *)
+Definition local_pfx (p : prefix) : prefix := (fst p + 1, snd p mod 10).
 Definition pfx_eqb (a b : prefix) : bool := (fst a =? fst b) && (snd a =? snd b).
 Definition src_eqb (a b : N * N) : bool := (fst a =? fst b) && (snd a =? snd b).
 Definition memN (x : N) (l : list N) : bool := existsb (N.eqb x) l.
@@ -61,7 +67,9 @@ Definition oaddr (o : option nexthop) : option N :=
   match o with Some n => Some (nh_addr n) | None => None end.
 Definition nh_of_addr (a : N) : nexthop := if a <? 100 then NhV4 a else NhV6 a.
 
-Record attr := { a_pref : N; a_llgrc : bool; a_nollgr : bool; a_rts : list N }.
+Record attr := { a_pref : N; a_llgrc : bool; a_nollgr : bool; a_rts : list N;
+                 a_clen : N;                (* CLUSTER_LIST length *)
+                 a_oid : option N           (* ORIGINATOR_ID *) }.
 
 Record entry := {
   e_peer : N;                 (* 0 = Source::local() *)
@@ -103,6 +111,10 @@ Record change := { ch_bc : bool; ch_ac : bool; ch_cur : list entry }.
 
 Inductive op :=
 | Insert (peer sess : N) (p : prefix) (pid : N) (nh : option nexthop) (tok : N)
+| InsertLim (peer sess : N) (p : prefix) (pid : N) (nh : option nexthop) (tok : N) (max cnt : N)
+    (* insert_route with a prefix limit [max] and the session's counter at [cnt] *)
+| StartDef (f : N)                     (* start_deferral_families: family = prefix kind *)
+| EndDef (f : N)                       (* end_deferral_families *)
 | Remove (peer sess : N) (p : prefix) (pid : N)
 | DropPeer (peer : N)
 | MarkStale (peer : N)
@@ -118,12 +130,13 @@ Record st := {
   s_get : prefix -> dest;          (* empty list = no Destination *)
   s_fl : flags;
   s_inv : list N;                  (* TableManager.nexthop_invalid *)
-  s_pol : N                        (* 0 = no import policy, k = policy k-1 *)
+  s_pol : N;                       (* 0 = no import policy, k = policy k-1 *)
+  s_def : list N                   (* families in restarting-speaker deferral (Rib.deferring) *)
 }.
 
 Definition st0 : st :=
   {| s_keys := []; s_get := fun _ => dest0; s_fl := {| f_stale := []; f_llgr := [] |};
-     s_inv := []; s_pol := 0 |}.
+     s_inv := []; s_pol := 0; s_def := [] |}.
 
 (* lexicographic comparison of equally long number lists *)
 Fixpoint lcmp (a b : list N) : comparison :=
@@ -157,7 +170,7 @@ Definition peer_info (p : N) : N * bool :=
 Definition attr_of (tok : N) : attr :=
   match find (fun x => fst x =? tok) (c_attrs c) with
   | Some x => snd x
-  | None => {| a_pref := 0; a_llgrc := false; a_nollgr := false; a_rts := [] |}
+  | None => {| a_pref := 0; a_llgrc := false; a_nollgr := false; a_rts := []; a_clen := 0; a_oid := None |}
   end.
 
 Definition esrc (e : entry) : N * N := (e_peer e, e_sess e).
@@ -167,9 +180,13 @@ Definition e_llgr (fl : flags) (e : entry) : bool := e_srcllgr fl e || a_llgrc (
 
 (* decision steps before the router-id step: the ECMP key of ecmp_paths *)
 Definition skey (fl : flags) (e : entry) : list N :=
-  [b2n (e_llgr fl e); a_pref (e_attr e); b2n (snd (peer_info (e_peer e))); b2n (e_stale fl e)].
+  [b2n (e_llgr fl e); a_pref (e_attr e); b2n (snd (peer_info (e_peer e))); b2n (e_stale fl e);
+   a_clen (e_attr e)].
+(* RibEntry::originator_id: the ORIGINATOR_ID attribute, else the source's router id *)
+Definition orig_id (e : entry) : N :=
+  match a_oid (e_attr e) with Some o => o | None => fst (peer_info (e_peer e)) end.
 (* RibEntry::cmp *)
-Definition fkey (fl : flags) (e : entry) : list N := skey fl e ++ [fst (peer_info (e_peer e))].
+Definition fkey (fl : flags) (e : entry) : list N := skey fl e ++ [orig_id e].
 
 (* entry.cmp(a).is_ge() *)
 Definition ege (fl : flags) (e a : entry) : bool :=
@@ -236,7 +253,7 @@ Definition distribute (fl : flags) (p : prefix) (ch : change) : list req :=
   if negb emit then [] else
   let nh := nhs_of (ecmp_code fl (ch_cur ch)) in
   Apply None p nh ::
-  (if fst p =? 1 then
+  (if is_vpn p then
      flat_map (fun vr : N * list N =>
        if fst vr =? 0 then [] else
        let importable := match ch_cur ch with
@@ -245,8 +262,8 @@ Definition distribute (fl : flags) (p : prefix) (ch : change) : list req :=
                          end in
        match v with
        | Legacy => if (match nh with [] => true | _ => false end) || importable
-                   then [Apply (Some (fst vr)) (2, snd p) nh] else []
-       | Fixed => [Apply (Some (fst vr)) (2, snd p) (if importable then nh else [])]
+                   then [Apply (Some (fst vr)) (local_pfx p) nh] else []
+       | Fixed => [Apply (Some (fst vr)) (local_pfx p) (if importable then nh else [])]
        end) (c_vrfs c)
    else []).
 
@@ -432,37 +449,71 @@ Definition add_key (p : prefix) (ks : list prefix) : list prefix :=
 Definition srcs_of (s : st) (peer : N) : list (N * N) :=
   flat_map (fun p => map esrc (filter (fun e => e_peer e =? peer) (d_l (s_get s p)))) (s_keys s).
 
+(* while a family is in deferral its table reports no change (Table::insert returns
+   NoChange, the purges clear their change lists ...): no FIB request for its
+   prefixes; next-hop registrations are not affected *)
+Definition is_apply (r : req) : bool := match r with Apply _ _ _ => true | _ => false end.
+Definition gate (def : list N) (p : prefix) (rq : list req) : list req :=
+  if memN (fst p) def then filter (fun r => negb (is_apply r)) rq else rq.
+
 (* a per-destination pass over the whole table *)
 Definition sweep (s : st) (fl' : flags) (f : prefix -> dest -> dest * list req) : st * list req :=
   ({| s_keys := s_keys s; s_get := fun p => fst (f p (s_get s p)); s_fl := fl';
-      s_inv := s_inv s; s_pol := s_pol s |},
-   flat_map (fun p => snd (f p (s_get s p))) (s_keys s)).
+      s_inv := s_inv s; s_pol := s_pol s; s_def := s_def s |},
+   flat_map (fun p => gate (s_def s) p (snd (f p (s_get s p)))) (s_keys s)).
 
 Definition purge_pass (s : st) (sel : entry -> bool) : st * list req :=
   sweep s (s_fl s) (fun p d =>
     let '(d', ch, nhl) := do_purge sel d in
     (d', distribute_opt (s_fl s) p ch ++ map Unreg nhl)).
 
-Definition step (s : st) (o : op) : st * list req :=
-  match o with
-  | Insert peer sess p pid nh0 tok =>
+(* insert_route; [inv_seen] is the set of unreachable next hops it consults: since the
+   fix of finding C20-4 the set is read inside the shard lock ([s_inv s]); before, it was
+   read before the lock was taken, possibly before a reachability report that was
+   applied to the shard first (run_race below) *)
+Definition step_ins_with (s : st) (inv_seen : list N) (peer sess : N) (p : prefix) (pid : N) (nh0 : option nexthop) (tok : N) : st * list req :=
     let d := s_get s p in
     let old_nh := lookup_nexthop d peer pid in
     let '(filtered, nh) := apply_import (s_pol s) peer nh0 in
-    let invf := match oaddr nh with Some a => memN a (s_inv s) | None => false end in
+    let invf := match oaddr nh with Some a => memN a inv_seen | None => false end in
     let '(d', ch) := do_insert (s_fl s) d (peer, sess) pid nh tok (attr_of tok) filtered invf in
     ({| s_keys := add_key p (s_keys s); s_get := upd p d' (s_get s); s_fl := s_fl s;
-        s_inv := s_inv s; s_pol := s_pol s |},
-     nht_register peer (oaddr nh) old_nh ++ distribute_opt (s_fl s) p ch)
+        s_inv := s_inv s; s_pol := s_pol s; s_def := s_def s |},
+     gate (s_def s) p (nht_register peer (oaddr nh) old_nh ++ distribute_opt (s_fl s) p ch)).
+
+Definition step_ins (s : st) (peer sess : N) (p : prefix) (pid : N) (nh0 : option nexthop) (tok : N) : st * list req :=
+  step_ins_with s (s_inv s) peer sess p pid nh0 tok.
+
+(* Table::insert's prefix-limit test: a peer's first path for a prefix is refused
+   (before anything is registered or installed) when its counter has reached the limit *)
+Definition limit_refuses (s : st) (peer : N) (p : prefix) (max cnt : N) : bool :=
+  negb (existsb (fun e => e_peer e =? peer) (d_l (s_get s p))) && (max <=? cnt).
+
+Definition step (s : st) (o : op) : st * list req :=
+  match o with
+  | Insert peer sess p pid nh0 tok => step_ins s peer sess p pid nh0 tok
+  | InsertLim peer sess p pid nh0 tok max cnt =>
+    if limit_refuses s peer p max cnt then (s, []) else step_ins s peer sess p pid nh0 tok
+  | StartDef f =>
+    ({| s_keys := s_keys s; s_get := s_get s; s_fl := s_fl s; s_inv := s_inv s; s_pol := s_pol s;
+        s_def := f :: s_def s |}, [])
+  | EndDef f =>
+    (* Table::end_deferral: every destination of the family is reported as changed *)
+    ({| s_keys := s_keys s; s_get := s_get s; s_fl := s_fl s; s_inv := s_inv s; s_pol := s_pol s;
+        s_def := filter (fun x => negb (x =? f)) (s_def s) |},
+     flat_map (fun p => if (fst p =? f) && negb (match d_l (s_get s p) with [] => true | _ => false end)
+                        then distribute (s_fl s) p {| ch_bc := true; ch_ac := true; ch_cur := eligs (d_l (s_get s p)) |}
+                        else []) (s_keys s))
   | Remove peer sess p pid =>
     let '(d', ch, r) := do_remove (s_get s p) peer pid in
     ({| s_keys := s_keys s; s_get := upd p d' (s_get s); s_fl := s_fl s;
-        s_inv := s_inv s; s_pol := s_pol s |},
-     distribute_opt (s_fl s) p ch ++
-     match r with
-     | Some e => if peer =? 0 then [] else opt_unreg (e_nh e)
-     | None => []
-     end)
+        s_inv := s_inv s; s_pol := s_pol s; s_def := s_def s |},
+     gate (s_def s) p
+       (distribute_opt (s_fl s) p ch ++
+        match r with
+        | Some e => if peer =? 0 then [] else opt_unreg (e_nh e)
+        | None => []
+        end))
   | DropPeer peer => purge_pass s (fun e => e_peer e =? peer)
   | DropStale peer => purge_pass s (fun e => (e_peer e =? peer) && e_stale (s_fl s) e)
   | DropLlgr peer => purge_pass s (fun e => (e_peer e =? peer) && e_srcllgr (s_fl s) e)
@@ -481,9 +532,9 @@ Definition step (s : st) (o : op) : st * list req :=
                 else if memN a (s_inv s) then s_inv s else a :: s_inv s in
     let '(s1, r) := sweep s (s_fl s) (fun p d =>
                       let '(d', ch) := do_validity a reachable d in (d', distribute_opt (s_fl s) p ch)) in
-    ({| s_keys := s_keys s1; s_get := s_get s1; s_fl := s_fl s1; s_inv := inv'; s_pol := s_pol s1 |}, r)
+    ({| s_keys := s_keys s1; s_get := s_get s1; s_fl := s_fl s1; s_inv := inv'; s_pol := s_pol s1; s_def := s_def s1 |}, r)
   | SetPolicy k =>
-    ({| s_keys := s_keys s; s_get := s_get s; s_fl := s_fl s; s_inv := s_inv s; s_pol := k |}, [])
+    ({| s_keys := s_keys s; s_get := s_get s; s_fl := s_fl s; s_inv := s_inv s; s_pol := k; s_def := s_def s |}, [])
   | SoftResetIn peer =>
     sweep s (s_fl s) (do_reset (s_fl s) (s_inv s) (s_pol s) peer)
   end.
@@ -530,6 +581,17 @@ Fixpoint observe (s : st) (ops : list op) : list val :=
 End WithCfg.
 
 Definition run_case (v : variant) (c : cfg) (ops : list op) : val := VL (observe c v st0 ops).
+
+(* an insert_route racing reachability reports: after the history [pre] the inserting
+   thread runs up to its shard-lock acquisition, another thread performs [mids]
+   completely, then the insert takes the lock.  [early = true] is the code before the
+   fix of finding C20-4 (unreachable set loaded before the lock). *)
+Definition run_race (early : bool) (c : cfg) (pre : list op)
+           (peer sess : N) (p : prefix) (pid : N) (nh : option nexthop) (tok : N) (mids : list op) : val :=
+  let '(s0, _) := run c Fixed st0 pre in
+  let '(s1, r1) := run c Fixed s0 mids in
+  let '(s2, r2) := step_ins_with c Fixed s1 (if early then s_inv s0 else s_inv s1) peer sess p pid nh tok in
+  VL (observe c Fixed st0 pre ++ [VL [VList v_req (r1 ++ r2); v_view s2]]).
 
 (* ---- kernel/src/lib.rs run_service_loop, the RegisterNexthop / UnregisterNexthop
    arms: [watched : HashMap<IpAddr, u32>] (an absent address counts 0) and the
